@@ -754,8 +754,17 @@ func (s *Store[H]) ensureInit(headers []H) {
 		return
 	}
 
+	// both pointers start at the lowest header given: the batch may come in any order and with gaps,
+	// and the head is only then advanced over what is contiguous
+	lowest := headers[0]
+	for _, h := range headers {
+		if h.Height() < lowest.Height() {
+			lowest = h
+		}
+	}
+
 	if headPtr := s.contiguousHead.Load(); headPtr == nil {
-		head := headers[len(headers)-1]
+		head := lowest
 		if s.contiguousHead.CompareAndSwap(headPtr, &head) {
 			s.heightSub.Init(head.Height())
 			log.Debugw("initialized head", "height", head.Height())
@@ -763,7 +772,7 @@ func (s *Store[H]) ensureInit(headers []H) {
 	}
 
 	if tailPtr := s.tailHeader.Load(); tailPtr == nil {
-		tail := headers[0]
+		tail := lowest
 		s.tailHeader.CompareAndSwap(tailPtr, &tail)
 		log.Debugw("initialized tail", "height", tail.Height())
 	}
